@@ -4251,10 +4251,81 @@ def _is_host_only_statement(node: ast.stmt) -> bool:
     return False
 
 
+def _logical_lines(src: str) -> List[str]:
+    """Return ``src`` as one physical line per logical line.
+
+    The statement handlers work on single lines.  Python joins the physical
+    lines of a bracketed expression (``led.blink(`` / ``100, 3)``) or of a
+    backslash continuation into one logical line and lets ``;`` separate
+    simple statements; both are undone here so that no part of such a
+    statement is mistaken for a stray fragment and skipped.  Text that does
+    not tokenize, and logical lines that contain a multi-line string, are
+    left untouched.
+    """
+
+    import io
+    import tokenize
+
+    lines = src.splitlines()
+    try:
+        tokens = list(tokenize.generate_tokens(io.StringIO(src).readline))
+    except (tokenize.TokenError, IndentationError, SyntaxError):
+        return lines
+
+    compound = {"if", "elif", "else", "for", "while", "def", "class", "try", "except", "finally", "with"}
+    # (first row, last row, columns of top-level ';' on a one-row statement, has multi-line string, first word)
+    statements: List[Tuple[int, int, List[int], bool, str]] = []
+    first_row = 0
+    first_word = ""
+    semicolons: List[int] = []
+    multiline_string = False
+    depth = 0
+    for tok in tokens:
+        if tok.type in (tokenize.NL, tokenize.COMMENT, tokenize.INDENT, tokenize.DEDENT, tokenize.ENDMARKER):
+            continue
+        if tok.type == tokenize.NEWLINE:
+            if first_row:
+                statements.append((first_row, tok.start[0], semicolons, multiline_string, first_word))
+            first_row, first_word, semicolons, multiline_string, depth = 0, "", [], False, 0
+            continue
+        if not first_row:
+            first_row, first_word = tok.start[0], tok.string
+        if tok.type == tokenize.STRING and tok.end[0] != tok.start[0]:
+            multiline_string = True
+        if tok.type == tokenize.OP:
+            if tok.string in "([{":
+                depth += 1
+            elif tok.string in ")]}":
+                depth = max(0, depth - 1)
+            elif tok.string == ";" and depth == 0:
+                semicolons.append(tok.start[1])
+
+    for first, last, columns, has_long_string, word in reversed(statements):
+        if has_long_string:
+            continue
+        if last > first:
+            head = _strip_inline_comment(lines[first - 1].rstrip())
+            tail = [_strip_inline_comment(text.strip()) for text in lines[first:last]]
+            joined = [head] + [text for text in tail if text]
+            joined = [text[:-1].rstrip() if text.endswith("\\") else text for text in joined]
+            lines[first - 1 : last] = [" ".join(joined)]
+        elif columns and word not in compound:
+            text = lines[first - 1]
+            indent = text[: len(text) - len(text.lstrip())]
+            parts: List[str] = []
+            previous = 0
+            for column in columns:
+                parts.append(text[previous:column])
+                previous = column + 1
+            parts.append(text[previous:])
+            lines[first - 1 : first] = [indent + part.strip() for part in parts if part.strip()]
+    return lines
+
+
 def parse(src: str) -> Program:
     """Parse ``src`` into a :class:`~Reduino.transpile.ast.Program`."""
 
-    lines = src.splitlines()
+    lines = _logical_lines(src)
     setup_body: List[object] = []
     loop_body: List[object]  = []
     ctx: Dict[str, Any] = {
